@@ -537,6 +537,19 @@ def _flags_tags(c, prog):
     got = [(r[0], r[2]) for r in rows]
     okl = len(got) == 2 and got[0][1] == "u8" and "arg2" in got[0][0] and got[1] == ("arg1", "script::Script")
     c.inst("R5.tapleaf-preimage", "TapLeaf hash = tagged(leaf version byte, script with compact size)", okl, "events %s" % got, lf.where(), lf.path)
+    # the leaf hash a script-path query is given as a ScriptPath is that of its own script and its own leaf version
+    # (taproot_script_spend_signature_hash takes `impl Into<TapLeafHash>`: the conversion is part of the digest's input)
+    sp_views = {"sighash::ScriptPath::<'s>::leaf_hash": ("taproot::TapLeafHash::from_script(arg1.script, arg1.leaf_version)",),
+                "sighash::<impl std::convert::From<sighash::ScriptPath<'s>> for taproot::TapLeafHash>::from":
+                    ("sighash::ScriptPath::leaf_hash(arg1)", "taproot::TapLeafHash::from_script(arg1.script, arg1.leaf_version)"),
+                "sighash::ScriptPath::<'s>::new": ("sighash::ScriptPath::ScriptPath{arg1, arg2, arg3}",),
+                "sighash::ScriptPath::<'s>::with_defaults": ("sighash::ScriptPath::new(arg1, 4294967295, taproot::LeafVersion::TAPSCRIPT)",
+                                                            "sighash::ScriptPath::ScriptPath{arg1, 4294967295, taproot::LeafVersion::TAPSCRIPT}")}
+    for fnp, wants in sp_views.items():
+        fsp = prog.fn(fnp)
+        t = re.sub(r"@[\w]*#\d+", "", show(Prov(fsp.body).local(0), -30))
+        c.inst("R5.script-path-leaf", fnp.split("::")[-1] if "impl" not in fnp else "From<ScriptPath> for TapLeafHash", t in wants, "returns %s" % t[:200], fsp.where(), fnp)
+    c.floor("R5.script-path-leaf", 4)
 
 
 def run(c, prog, ctx):
